@@ -833,14 +833,14 @@ def report(chk, m, rule, prop, what):
             if f.issue not in issues:
                 continue
             per_issue[f.issue] = per_issue.get(f.issue, 0) + 1
-            if per_issue[f.issue] > 6:
+            if per_issue[f.issue] > 60:
                 continue
             n_bad += 1
             chk.ob(rule, cache, fn, f"{f.issue}: {' >> '.join(f.seq)} ({ex.backend})", False,
                    f"[{f.issue}] {f.detail}", extra={"witness": f.seq, "backend": ex.backend, "reason": f.reason})  # fmt: skip
     for k, n in per_issue.items():
-        if n > 6:
-            chk.note(f"{rule}: {n - 6} further `{k}` witnesses not listed")
+        if n > 60:
+            chk.note(f"{rule}: {n - 60} further `{k}` witnesses not listed")
     st = sql.stats
     judged = st["hazards_confirmed"] + st["accepted_confirmed"] + st["conservative"]
     if prop == "C08":
